@@ -11,15 +11,15 @@ Driver handler for stream `c18` (binary codecs).
   c18 op=rd    s=<item> kind=buffer|reader b=<hex>  Unmarshal from a reader            → ok:<value> rest=<n> | eof | err
   c18 op=wr    s=<item> v=<value>                   Marshal                            → ok:<hex> | err
 
-`strictShortRead` selects the model of the size-prefixed event-log readers: `false` = the code as it
-is in the repository (readSizedArray ignores short reads), `true` = after the repair of
-eventlog/unmarshal.go + eventlog/event.go (readSized / io.ReadFull).  ONE-LINE SWITCH.
+`strictShortRead` selects the model of the event-log readers: `true` = the code as it is in the
+repository after the event-log repair (readExact / io.ReadFull, log ends only at a clean end of input),
+`false` = the code before it (readSizedArray ignored short reads, any io.EOF ended the log).
 -/
 namespace GceTcb.Drive.C18
 open GceTcb GceTcb.Codec GceTcb.Codecs GceTcb.EventLog
 
 /-- the version of eventlog/unmarshal.go this tree has -/
-def strictShortRead : Bool := false
+def strictShortRead : Bool := true
 
 def showOutcome {α : Type} (f : α → String) : Outcome α → String
   | .ok a => "ok:" ++ f a
